@@ -332,8 +332,10 @@ class Vector(AutoSerialize):
         # Create result structure for fancy indexing
         result = []
         for idx in np.ndindex(*[len(i) for i in indices_arrays]):
-            src_idx = tuple(ind[i] for ind, i in zip(indices_arrays, idx))
-            result.append(self._data[src_idx[0]][src_idx[1]])
+            ref = self._data
+            for ind, i in zip(indices_arrays, idx):
+                ref = ref[ind[i]]
+            result.append(ref)
 
         return result
 
@@ -472,14 +474,14 @@ class Vector(AutoSerialize):
         full_idx = list(idx_converted) + [slice(None)] * (len(self.shape) - len(idx_converted))
         indices = [get_indices(i, s) for i, s in zip(full_idx, self.shape)]
 
-        # Create new shape and data
-        new_shape = [len(i) for i in indices]
-        new_data = [[None] * new_shape[-1] for _ in range(new_shape[0])]
+        # Create new shape and data: one nesting level per fixed dimension
+        def take(data: Any, dims: List[np.ndarray]) -> Any:
+            if not dims:
+                return data
+            return [take(data[i], dims[1:]) for i in dims[0]]
 
-        # Fill the new data structure
-        for out_idx in np.ndindex(*new_shape):
-            src_idx = tuple(ind[i] for ind, i in zip(indices, out_idx))
-            new_data[out_idx[0]][out_idx[1]] = self._data[src_idx[0]][src_idx[1]]
+        new_shape = [len(i) for i in indices]
+        new_data = take(self._data, indices)
 
         # Create new Vector
         vector_new = Vector.from_shape(
